@@ -125,6 +125,28 @@ case("ifand kept: the inner if has an else", {"m": "def f(a, b, g, h):\n    if a
 case("unswitch fires: the condition does not depend on the element", {"m": "def f(d, c):\n    return sum((ord(x) if c else x for x in d))\n"}, "m", "f", has=["sum((ord(x) for x in d))"])
 case("unswitch kept: the condition reads the element", {"m": "def f(d):\n    return sum((ord(x) if x else 0 for x in d))\n"}, "m", "f", has=["if x else 0"])
 
+# -- FWD (copies, mutable displays, effects) ------------------------------------------------------------------------------------
+case("copy forwarded: the source is not assigned before the last use", {"m": "def f(r):\n    a, v = r()\n    w = v\n    if w == 1:\n        return w\n    a, v = r()\n    return v\n"}, "m", "f", lacks=["w = v"])
+case("copy kept: the source is assigned between the copy and a use", {"m": "def f(r):\n    a, v = r()\n    w = v\n    a, v = r()\n    return (w, v)\n"}, "m", "f", has=["w = v"])
+case("mutable display is not duplicated", {"m": "def f(g):\n    xs = []\n    g(xs)\n    g(xs)\n    return xs\n"}, "m", "f", has=["xs = []"])
+case("call is not moved across another effect", {"m": "def f(g, h):\n    a = g()\n    h()\n    return a\n"}, "m", "f", has=["a = g()"])
+case("dead store of a call is kept", {"m": "def f(g):\n    a = g()\n    a = 1\n    return a\n"}, "m", "f", has=["g()"])
+# -- ROT / LOCKWITH / UNROLL ----------------------------------------------------------------------------------------------------
+case("rot fires on a repeated read", {"m": "def f(r, ok):\n    x = r()\n    while not ok(x):\n        x = r()\n    return x\n"}, "m", "f", has=["while True"])
+case("rot kept: the statement before the loop differs from the one at its end", {"m": "def f(r, r2, ok):\n    x = r()\n    while not ok(x):\n        x = r2()\n    return x\n"}, "m", "f", has=["while not ok(x)"])
+case("lockwith fires", {"m": "class A(object):\n    def f(self):\n        self._l.acquire()\n        try:\n            return self.g()\n        finally:\n            self._l.release()\n"}, "m", "f", has=["with self._l:"])
+case("lockwith kept: another lock is released", {"m": "class A(object):\n    def f(self):\n        self._l.acquire()\n        try:\n            return self.g()\n        finally:\n            self._m.release()\n"}, "m", "f", has=["acquire()"])
+case("unroll kept: the body can break", {"m": "def f(g):\n    for x in (1, 2):\n        if g(x):\n            break\n    return 0\n"}, "m", "f", has=["for x in (1, 2)"])
+# -- MODTABLE / class flattening / STAR -------------------------------------------------------------------------------------------
+case("modtable kept: the loop variable is read afterwards", {"m": "T = {}\nfor k in (1, 2):\n    T[k] = k + 1\nLAST = k\ndef f():\n    return T\n"}, "m", "f", has=["return T"])
+case("star expanded through the attribute's class", {"h": "class S(object):\n    def get(self, a, b):\n        return (a, b)\n", "m": "from .h import S\nclass A(object):\n    def __init__(self):\n        self._s = S()\n    def f(self, k):\n        return self._s.get(*k)\n"},
+     "m", "f", has=["k[0], k[1]"])
+case("star kept: the method has a default (the tuple could be shorter)", {"h": "class S(object):\n    def get(self, a, b=None):\n        return (a, b)\n", "m": "from .h import S\nclass A(object):\n    def __init__(self):\n        self._s = S()\n    def f(self, k):\n        return self._s.get(*k)\n"},
+     "m", "f", has=["*k"])
+# -- RETSPLIT / YIELDSPLIT ------------------------------------------------------------------------------------------------------
+case("return context distributed over a conditional with a literal operand", {"m": "def f(c, a, b):\n    return (a if c else b) & 255\n"}, "m", "f", has=["return a & 255", "return b & 255"])
+case("return context kept: the other operand is not a literal", {"m": "def f(c, a, b, g):\n    return (a if c else b) & g()\n"}, "m", "f", has=["& g()"], lacks=["return a & g()"])
+
 
 def main():
     bad = 0
